@@ -200,3 +200,21 @@ Example C02_nonvacuous :
   store (fst (run init ops)) =
     Some [it3 (Some 2) (Some 9) (Some 5); it3 (Some 3) None (Some 5); it3 (Some 4) None None]%N.
 Proof. vm_compute. repeat split; reflexivity. Qed.
+
+(* The two former panic sites of the engine (repaired with C05, /repo 306e400 and db846a9), as the
+   model now transcribes them: a partial update with a selector but no data item is answered with an
+   error and leaves the data as it was; an item without a value for the selected field does not match
+   (the update goes on to the items that do). *)
+Example C02_former_panic_sites :
+  map snd (snd (run init
+    [Init 1 false;
+     full_upd [it3 (Some 1) (Some 10) None];
+     Update false true false {| u_new := []; u_fp := sel1 1; u_fd := None |};
+     full_upd [it3 None (Some 5) None; it3 (Some 2) None None];
+     Update false true false {| u_new := [it3 None (Some 9) None]; u_fp := sel1 2; u_fd := None |}]%N)) =
+  [[];
+   [Res 0; Ret [it3 (Some 1) (Some 10) None]; Store (Some [it3 (Some 1) (Some 10) None])];
+   [Res 1; Store (Some [it3 (Some 1) (Some 10) None])];
+   [Res 0; Ret [it3 None (Some 5) None; it3 (Some 2) None None]; Store (Some [it3 None (Some 5) None; it3 (Some 2) None None])];
+   [Res 0; Ret [it3 None (Some 5) None; it3 (Some 2) (Some 9) None]; Store (Some [it3 None (Some 5) None; it3 (Some 2) (Some 9) None])]]%N.
+Proof. vm_compute. reflexivity. Qed.
